@@ -248,6 +248,50 @@ Proof.
   split; [eexists; vm_compute; reflexivity|]. vm_compute. reflexivity.
 Qed.
 
+(* ---- `apply account N1` .. `apply account Nk`: a posting written `name` inside belongs to the account N1:..:Nk:name
+   (under stack x is the transaction as the journal loop receives it), and it is THAT account's total its `= AMOUNT`
+   consults: the account called `name` at top level is another account and contributes nothing, different written
+   names stay different accounts, nested blocks compose ---- *)
+Theorem apply_account_assertion_consults_the_qualified_account : forall hist n stack name ro c h,
+  a_acct h = name ->
+  running (hist ++ [h]) (qualify (n :: stack) name) ro c == running hist (qualify (n :: stack) name) ro c.
+Proof. exact apply_account_consults_the_qualified_account. Qed.
+Print Assumptions apply_account_assertion_consults_the_qualified_account.
+
+Theorem apply_account_keeps_accounts_apart : forall stack a b, qualify stack a = qualify stack b -> a = b.
+Proof. exact qualify_injective. Qed.
+Print Assumptions apply_account_keeps_accounts_apart.
+
+Theorem nested_apply_account_blocks_compose : forall s1 s2 name, qualify (s1 ++ s2) name = qualify s1 (qualify s2 name).
+Proof. exact qualify_app. Qed.
+Print Assumptions nested_apply_account_blocks_compose.
+
+(* non-vacuity:  x0: T:A $4.00 / A $1.00 / Q ;  inside `apply account T`:  A $0.00 = $4.00 / Q $0.00  is accepted and
+   `= $5.00`, `= $1.00` are refused *)
+Example ex_apply_account :
+  let usd := Some [36%Z] in
+  let A := [65%Z] in let Qa := [81%Z] in let T := [84%Z] in
+  let d acct a asg := mkD (mkW (mkPost acct PReal a None None false false false) asg) false in
+  let am q := Some (mkAmt q 2 false usd) in
+  let x0 := JXact [d (T ++ 58%Z :: A) (am 4) None; d A (am 1) None; d Qa None None] in
+  let x1 asg := JXact (under [T] [d A (am 0) (am asg); d Qa (am 0) None]) in
+  (match run_journal_d (fun _ _ => []) false false [] [] [] [x0; x1 4; x1 5; x1 1] with
+   | [Ok (Accepted _); Ok (Accepted _); Err EAssertOff; Err EAssertOff] => True
+   | _ => False end).
+Proof. vm_compute. exact I. Qed.
+
+(* ---- the order of effects within one transaction: its postings are judged in the order they are written; while the
+   clause of a posting is judged the resolved postings before it are its `earlier`, and nothing written after it is
+   known (the first stage does not mention ws2) ---- *)
+Theorem postings_of_a_transaction_are_judged_in_written_order : forall ord permissive hist ws1 ws2 pl earlier,
+  resolve_posts ord permissive pl hist earlier (ws1 ++ ws2) =
+  match resolve_posts ord permissive pl hist earlier ws1 with
+  | (Ok ps, pl') => resolve_posts ord permissive pl' hist (rev ps) ws2
+  | (Err e, pl') => (Err e, pl')
+  end.
+Proof. exact resolve_posts_app. Qed.
+Print Assumptions postings_of_a_transaction_are_judged_in_written_order.
+
 (* the tie to the source by translation: the lines of /repo/src this model transcribes (harness/translators/src_guards.py
    lists them, with the function each is looked for in) are still there, in the same order, in the source as it is NOW -
    coq/Gen/SourceGuards.v is regenerated on every run and names the guards that are false *)
